@@ -107,6 +107,10 @@ type service struct {
 	// before the block is accepted. So, in case of change view, it will contain
 	// an updated value.
 	lastTimestamp uint64
+	// tipHash and tipIndex describe the block dBFT context is (re)initialized
+	// upon, see currentBlockHash.
+	tipHash  util.Uint256
+	tipIndex uint32
 }
 
 // Config is a configuration for consensus services.
@@ -182,8 +186,8 @@ func NewService(cfg Config) (Service, error) {
 		dbft.WithGetBlock[util.Uint256](srv.getBlock),
 		dbft.WithWatchOnly[util.Uint256](func() bool { return false }),
 		dbft.WithNewBlockFromContext[util.Uint256](srv.newBlockFromContext),
-		dbft.WithCurrentHeight[util.Uint256](cfg.Chain.BlockHeight),
-		dbft.WithCurrentBlockHash[util.Uint256](cfg.Chain.CurrentBlockHash),
+		dbft.WithCurrentHeight[util.Uint256](srv.currentHeight),
+		dbft.WithCurrentBlockHash[util.Uint256](srv.currentBlockHash),
 		dbft.WithGetValidators[util.Uint256](srv.getValidators),
 
 		dbft.WithNewConsensusPayload[util.Uint256](srv.newPayload),
@@ -443,6 +447,32 @@ func (s *service) handleChainBlock(b *coreb.Block) {
 		s.postBlock(b)
 		s.dbft.Reset(b.Timestamp * nsInMs)
 	}
+}
+
+// currentBlockHash is dBFT's CurrentBlockHash callback. dBFT initializes its
+// context with the hash of the current block and then with the current height,
+// two questions, while blocks are added to the chain by other goroutines. Both
+// answers are taken from one block here, the height is kept for currentHeight.
+func (s *service) currentBlockHash() util.Uint256 {
+	h := s.Chain.CurrentBlockHash()
+	b, err := s.Chain.GetBlock(h)
+	if err != nil {
+		// Can't happen, we have some current block.
+		s.log.Error("failed to get the current block", zap.Stringer("hash", h), zap.Error(err))
+		s.tipHash, s.tipIndex = h, s.Chain.BlockHeight()
+		return s.tipHash
+	}
+	s.tipHash, s.tipIndex = b.Hash(), b.Index
+	return s.tipHash
+}
+
+// currentHeight is dBFT's CurrentHeight callback, it returns the index of the
+// block currentBlockHash has answered with.
+func (s *service) currentHeight() uint32 {
+	if s.tipHash.Equals(util.Uint256{}) {
+		s.currentBlockHash()
+	}
+	return s.tipIndex
 }
 
 func (s *service) validatePayload(p *Payload) bool {
